@@ -1,6 +1,92 @@
-"""replay of verifier counter-models on the real code (placeholder until the harnesses are in)"""
+"""replay.runner -- replay verifier counter-models on the real code (sub-process under /venv/bin/python)."""
+from __future__ import annotations
+import hashlib, itertools, json, os, subprocess, sys
+
+ROOT = os.path.dirname(os.path.dirname(os.path.abspath(__file__)))
+PY = "/venv/bin/python"
+
+
+def _spec_file(sidecars):
+    from pyvc.run import load_registry
+    from pyvc import export
+    key = hashlib.sha1(json.dumps(sidecars or []).encode()).hexdigest()[:8]
+    path = os.path.join(ROOT, "replays", f"spec_{key}.json")
+    os.makedirs(os.path.dirname(path), exist_ok=True)
+    export.write(load_registry(sidecars), path)
+    return path
+
+
+def _run(module, req, repo, timeout=90):
+    rp = os.path.join(ROOT, "replays", f"req_{os.getpid()}.json")
+    json.dump(req, open(rp, "w"), default=str)
+    env = dict(os.environ)
+    env["PYTHONPATH"] = os.path.join(repo, "src") + ":" + ROOT
+    try:
+        p = subprocess.run(["timeout", str(timeout), PY, "-m", module, rp], cwd=ROOT, env=env, capture_output=True, text=True, timeout=timeout + 10)
+    except subprocess.TimeoutExpired:
+        return dict(reproduced=False, error="replay timed out")
+    finally:
+        try:
+            os.unlink(rp)
+        except OSError:
+            pass
+    for line in p.stdout.splitlines():
+        if line.startswith("REPLAY-RESULT "):
+            return json.loads(line[len("REPLAY-RESULT "):])
+    return dict(reproduced=False, error="no result", stdout=p.stdout[-500:], stderr=p.stderr[-800:])
+
+
+def target_of(record):
+    """which run-time contract check corresponds to the failed obligation"""
+    import re
+    ob = record.get("obligation") or ""
+    tail = ob.split("/", 1)[1] if "/" in ob else ob
+    m = re.match(r"ensures\[(\d+)\]", tail)
+    if m:
+        return dict(kind="ensures", index=int(m.group(1)))
+    m = re.match(r"raises\[(\w+)\]\[(\d+)\]", tail)
+    if m:
+        return dict(kind="raises", exc=m.group(1), index=int(m.group(2)))
+    m = re.match(r"call:([\w.]+)/requires\[(\d+)\]", tail)
+    if m:
+        return dict(kind="requires@callsite", callee=m.group(1), index=int(m.group(2)))
+    m = re.match(r"noraise\[(\w+)\]", tail)
+    if m:
+        return dict(kind="noraise", exc=m.group(1))
+    if tail.startswith("loop"):
+        return dict(kind="invariant")
+    return dict(kind="other")
+
+
 def replay_candidates(record, repo):
-    return None
+    fn = record.get("function") or ""
+    if not fn.startswith("pyrtma.manager:") or fn.endswith(".run"):
+        return dict(reproduced=False, reason="no replay harness for this function family")
+    spec = _spec_file(record.get("sidecars"))
+    tried = []
+    for cand in (record.get("candidates") or [])[:3]:
+        w = cand.get("witness")
+        if not w:
+            continue
+        socks = [oid for oid, d in w["objects"].items() if d["class"] == "Socket"]
+        variants = [[]] + [[s] for s in socks[:5]] + [list(p) for p in itertools.combinations(socks[:4], 2)]
+        for fails in variants[:12]:
+            res = _run("replay.manager_replay", dict(spec=spec, function=fn, witness=w, fail_sets=[fails], target=target_of(record)), repo)
+            v = (res.get("variants") or [{}])[0]
+            tried.append(dict(fail=fails, reproduced=res.get("reproduced"), precondition_ok=v.get("precondition_ok"), exception=v.get("exception"),
+                              violations=v.get("violations"), all_violations=v.get("all_violations"), error=res.get("error"), evaluated=v.get("evaluated"), not_evaluable=v.get("not_evaluable_sample"), sent=v.get("sent"), header=v.get("header"), stderr=(res.get("stderr") or "")[-300:]))
+            if res.get("reproduced"):
+                return dict(reproduced=True, input=dict(witness=w, failing_sockets=fails), observed=v, tried=len(tried))
+    return dict(reproduced=False, tried=tried[:8])
+
+
 def replay_file(path, repo):
-    print("replay harness not available for this record")
-    return 2
+    rec = json.load(open(path))
+    print(f"obligation: {rec.get('obligation')}\ngoal: {rec.get('goal')}\nstatus: {rec.get('status')} {rec.get('solver_reason') or ''}")
+    r = replay_candidates(rec, repo)
+    print(json.dumps(r, indent=1, default=str)[:4000])
+    if r.get("reproduced"):
+        print(f"VIOLATION property={rec.get('property')} replay={path}")
+        return 1
+    print("not reproduced on this tree")
+    return 0
